@@ -503,6 +503,26 @@ fn main() {
         // (d) protocol types equal the schema traced from the real serde implementations
         match &traced {
             Ok(t) => {
+                // a capability crate's own registry must contain its protocol types at all: the
+                // operation, its output and what they refer to
+                let own: &[&str] = match *example {
+                    "crux_core" => &["RenderOperation"],
+                    "crux_http" => &["HttpRequest", "HttpHeader", "HttpResult", "HttpResponse", "HttpError"],
+                    "crux_kv" => &["KeyValueOperation", "KeyValueResult", "KeyValueResponse", "KeyValueError", "Value"],
+                    "crux_platform" => &["PlatformRequest", "PlatformResponse"],
+                    "crux_time" => &["TimeRequest", "TimeResponse", "TimerId", "Instant", "Duration"],
+                    _ => &[],
+                };
+                for name in own {
+                    r.count("own_protocol_types_required", 1);
+                    if !entries.contains_key(*name) && t.get(*name).is_some() {
+                        r.violation(
+                            &format!("registry/protocol-type-missing/{name}"),
+                            &format!("{example}: the registry derived from the capability crate's own description lacks its protocol type {name}"),
+                            json!({"lane": "clilab", "example": example, "type": name}),
+                        );
+                    }
+                }
                 for (name, entry) in &entries {
                     if let Some(real) = t.get(name) {
                         // only the types that really are the shipped protocol types (same shape of name)
